@@ -165,6 +165,12 @@ func (r *reader) ReadTracks() (err error) {
 		//fmt.Printf("message %v\n", m)
 		tr := int(r.Track())
 
+		// more track chunks than the header announced (e.g. a header that declares zero tracks)
+		if tr >= len(r.Tracks) {
+			err = fmt.Errorf("invalid SMF data: track %v found, but header declares %v tracks", tr+1, r.numTracks)
+			break
+		}
+
 		/*
 			// TODO maybe remove this after lots of tests
 			if m == nil {
